@@ -113,6 +113,19 @@ pub fn gen_case(rng: &mut Rng, corpus: &[(String, Vec<u8>)], idx: usize) -> CliC
                 }
                 b
             }
+            5 if idx % 3 == 0 => {
+                // a file that starts with its encoding's mark twice (the second one is content), or with a mark and nothing else
+                let (enc, t) = *rng.pick(&[("gb18030", "这是一个用来测试编码检测的中文句子，内容并不重要。"), ("gb18030", "Plain words after a doubled signature."), ("utf-8", "Déjà vu, naïve café."), ("utf-16le", "Plain words in sixteen bits.")]);
+                let mk = mark_of(enc).unwrap_or(b"");
+                let mut b = mk.to_vec();
+                if rng.chance(3, 4) {
+                    b.extend_from_slice(mk);
+                }
+                for _ in 0..rng.range(1, 6) {
+                    b.extend_from_slice(&enc_bytes_lossy(t, enc));
+                }
+                b
+            }
             3 => b"GIF89a\x01\x00\x01\x00\x80\x00\x00\xff\xff\xff\x00\x00\x00!\xf9\x04\x01\x00\x00\x00\x00,\x00\x00\x00\x00\x01\x00\x01\x00\x00\x02\x02D\x01\x00;".to_vec(),
             _ => {
                 let mut c = structured_case(rng, corpus).bytes;
@@ -228,6 +241,25 @@ pub fn gen_case(rng: &mut Rng, corpus: &[(String, Vec<u8>)], idx: usize) -> CliC
         force = false;
         alternatives = idx % 3 == 1;
         minimal = idx % 3 == 2;
+        threshold = None;
+    }
+    // a file in a non-UTF encoding that has a signature (gb18030), starting with the signature twice: the second
+    // one is text and belongs into what gets written
+    if idx == 11 || idx == 23 || idx % 97 == 43 {
+        let t = *rng.pick(&["这是一个用来测试编码检测的中文句子，内容并不重要。", "我能吞下玻璃而不伤身体。视野无限广，窗外有蓝天。"]);
+        let mk = mark_of("gb18030").unwrap_or(b"");
+        let mut content = mk.to_vec();
+        content.extend_from_slice(mk);
+        for _ in 0..rng.range(2, 8) {
+            content.extend_from_slice(&enc_bytes_lossy(t, "gb18030"));
+        }
+        files = vec![("notes.txt".to_string(), content)];
+        args_files = vec!["notes.txt".into()];
+        normalize = true;
+        replace = idx % 2 == 0;
+        force = replace;
+        alternatives = false;
+        minimal = false;
         threshold = None;
     }
     CliCase { files, args_files, alternatives, normalize, minimal, replace, force, threshold }
